@@ -121,6 +121,8 @@ def targets():
     for ax in 'xyz':
         ts.append(mk(f'rotation_{ax}', ['t0'], (lambda A, v, ax=ax: D(A).rotation(ax, v.t0)), f"rotation('{ax}', t0)"))
     for s in _seqs():
+        if s == 'xz':       # already a target above (explicit, both tiers)
+            continue
         ts.append(mk(f'rot_seq_{s}', T3[:len(s)], (lambda A, v, s=s: D(A).rot_seq(s, ang(v, len(s)))), f"rot_seq('{s}', angles)"))
     return ts
 
@@ -294,6 +296,8 @@ def correspondence(ctx):
         cases = [{'t0': a} for a in [0.0, 3e-7, -3e-7, 1e-9, 2 * math.pi, -2 * math.pi, 4 * math.pi, 360.0, math.pi, 1.0, -2.0, 6.0, 7.0]]
         ctx.correspond(f'C10_rotation_{ax}', cases, (lambda c, ax=ax: I['rotation'](ax, c['t0'])), tol_ulp=256)
     for s in _seqs():
+        if s == 'xz':
+            continue
         k = len(s)
         cases = [cm.d(T3[:k], _seq_angles(ctx.rng, k, i)) for i in range(ctx.n(12, 40))]
         ctx.correspond(f'C10_rot_seq_{s}', cases, (lambda c, s=s, k=k: I['rot_seq'](s, [c[x] for x in T3[:k]])), tol_ulp=256)
